@@ -45,7 +45,7 @@ ASSUMPTIONS = [
     "the agent's engine clock is a separate frozen clock, so stepping the client's clock does not touch timeliness (C12)",
     "hostile responses run under the logical step budget; an aborted trial returns nothing to the caller",
 ]
-REQUIRED_MONITORS = ("echo_accepted", "echo_accepted_clock_moved_during_op", "perturbed_refused", "perturbed_error_response_refused", "community_fault_refused", "discovery_msgid_refused")
+REQUIRED_MONITORS = ("echo_accepted", "echo_accepted_clock_moved_during_op", "perturbed_refused", "perturbed_error_response_refused", "community_fault_refused", "discovery_msgid_refused", "community_variants_refused", "late_duplicates_refused")
 
 OPS = ("get", "multiget", "getnext", "multigetnext", "set", "multiset", "bulkget", "walk", "multiwalk", "bulkwalk", "table", "bulktable",
        # the lenient walks (errors="warn" forgives a device that does not advance - nothing else)
@@ -221,6 +221,8 @@ def run_case(R, level, op, fault, k, delta, step_seed, prime, err=None, base=1_7
             m = ber.decode_message(resp)
             if fault == "community":
                 state["applied"] = True
+                if isinstance(delta, (list, tuple)):
+                    return ber.enc_community_message(m["version"], COMMUNITY_VARIANTS[delta[1]](m["community"]), m["pdu"])
                 return ber.enc_community_message(m["version"], m["community"] + b"x" if delta > 0 else b"", m["pdu"])
             if fault == "version":
                 state["applied"] = True
@@ -389,6 +391,8 @@ def run(R):
         VIA[0] = False
         swapped_replies(R)
         temporary_credentials(R)
+        community_variants(R)
+        late_duplicate(R)
         for op in ("walk", "multiwalk", "table"):
             for fault, delta in (("community", 1), ("community", -1), ("version", 1), ("version", -1), ("rid", 1), ("rid", ("abs", 0))):
                 for k in (1, 2):
@@ -415,6 +419,85 @@ def run(R):
                     if not level.startswith("v3"):
                         run_case(R, level, op, fault, 1, 1, None, True, None)
     budget.MONITOR.off()
+
+
+# communities that differ from the client's by octets a lossy text comparison would lose:
+# bytes that are not valid UTF-8, surrounding white-space, letter case, a NUL
+COMMUNITY_VARIANTS = (
+    lambda c: c + b"\xff",
+    lambda c: b"\xfe" + c,
+    lambda c: c[:3] + b"\xc3" + c[3:],
+    lambda c: c + b" ",
+    lambda c: c + b"\n",
+    lambda c: b" " + c,
+    lambda c: b"\t" + c + b"\r\n",
+    lambda c: c + b"\x00",
+    lambda c: c.swapcase(),
+    lambda c: c[:-1],
+    lambda c: c + c,
+)
+
+
+def community_variants(R):
+    """Responses that are right in every respect except that their community differs from
+    the client's by octets a text comparison would lose: refused on both versions, on the
+    first and on a later exchange of an operation."""
+    for level in ("v1", "v2c"):
+        for i in range(len(COMMUNITY_VARIANTS)):
+            for op, k in (("get", 0), ("set", 0), ("walk", 1), ("getnext", 0)):
+                run_case(R, level, op, "community", k, ("variant", i), None, True, None)
+                R.mon["community_variants_refused"] += 1
+
+
+def late_duplicate(R):
+    """A byte-identical copy of the PREVIOUS response (a late UDP duplicate) arrives as the
+    answer to the NEXT request of the same client, which carries another request id because
+    the clock has moved on: it must not be returned, on any version or level - also when
+    the two requests ask for the same thing."""
+    for level in rig.LEVEL_CYCLE_ALL:
+        for op in ("get", "multiget", "getnext", "set", "bulkget"):
+            if level == "v1" and op == "bulkget":
+                continue
+            case = {"level": level, "op": op, "fault": "late-duplicate", "k": 1, "delta": None, "step_seed": None, "prime": True}
+            agent_clock = env.Clock()
+            env.CLOCK.freeze(1_700_000_000.0)
+            try:
+                w = World(level, DB, clock=agent_clock)
+                w.prime()
+                w.seam.budget = 60
+                inner = w.agent.handle
+                st = {"last": None, "replay": False, "applied": False}
+
+                def responder(data, st=st, inner=inner):
+                    if st["replay"] and st["last"] is not None:
+                        st["applied"] = True
+                        return st["last"]
+                    resp = inner(data)
+                    st["last"] = resp
+                    return resp
+
+                w.set_responder(responder)
+                first = rig.outcome(lambda: call(w, op))
+                env.CLOCK.freeze(1_700_000_003.0)
+                st["replay"] = True
+                n0 = len(w.seam.requests)
+                second = rig.outcome(lambda: call(w, op))
+            except rig.BudgetExceeded:
+                R.mon["aborted_by_budget"] += 1
+                continue
+            finally:
+                env.CLOCK.freeze(1_700_000_000.0)
+            R.case(("c07-late-duplicate", level, op), st["applied"])
+            if first[0] != "ok":
+                R.violation(case, "the conformant echo of the first request was refused: %r" % (first[1],), None)
+                return
+            # the clock is frozen three seconds later for the second call, so its request id
+            # (and message id) differs from the one the copied response carries
+            if second[0] == "ok" and st["applied"]:
+                R.violation(case, "a byte-identical copy of the previous response (request id of the earlier request) was returned as the result of the next request: %r" % (str(second[1])[:120],), None)
+                return
+            if st["applied"]:
+                R.mon["late_duplicates_refused"] += 1
 
 
 def temporary_credentials(R):
@@ -543,6 +626,9 @@ def replay(R, v):
         return
     if v["case"].get("fault") == "temporary-credentials":
         temporary_credentials(R)
+        return
+    if v["case"].get("fault") == "late-duplicate":
+        late_duplicate(R)
         return
     c = v["case"]
     run_case(R, c["level"], c["op"], c["fault"], c["k"], c["delta"], c["step_seed"], c["prime"], c.get("err"), c.get("base", 1_700_000_000.0), via=c.get("via") or False)
